@@ -113,7 +113,8 @@ def arg_terms(f, prefix="x"):
         term = refprog.fresh_arg(f"{prefix}{i}", t)
         terms.append(term)
         if Explorer.cur is not None:
-            Explorer.cur.named[f"{prefix}{i}"] = term
+            # integer arguments are registered as (signed) SymInt views so that known-finding regions can be written over them
+            Explorer.cur.named[f"{prefix}{i}"] = SymInt.from_bv(term) if z3.is_bv(term) else term
     return terms
 
 
